@@ -34,6 +34,12 @@ pub struct Registry {
     pub families: Vec<FamilyEntry>,
     /// free-form tags per subject id (features of generated declarations, for coverage tables)
     pub tags: std::collections::HashMap<String, Vec<String>>,
+    /// readers with an error-swallowing hand-written codec, each with the id of the writer whose encodings seed its
+    /// hostile inputs; judged for totality and memory safety only, hence not in `subjects`
+    pub tolerant: Vec<(String, Box<dyn Subject>)>,
+    /// declarations outside the legal histories (a field name removed and re-added): they cannot read their own data, so
+    /// they are no subjects of the round-trip checks — but what they make of hostile input is still judged (C05, C06)
+    pub hostile_only: Vec<Box<dyn Subject>>,
 }
 
 /// one evolution history and the subjects of its versions, in several embeddings
@@ -51,7 +57,7 @@ pub struct FamilyEntry {
 
 impl Registry {
     pub fn new() -> Self {
-        Registry { subjects: Vec::new(), histories: Vec::new(), families: Vec::new(), tags: Default::default() }
+        Registry { subjects: Vec::new(), histories: Vec::new(), families: Vec::new(), tags: Default::default(), tolerant: Vec::new(), hostile_only: Vec::new() }
     }
 
     pub fn add<T: Model + desert::BinarySerializer + desert::BinaryDeserializer>(&mut self, id: &str) {
@@ -63,8 +69,21 @@ impl Registry {
         self.tags.insert(id.to_string(), tags.iter().map(|s| s.to_string()).collect());
     }
 
+    pub fn add_hostile_only<T: Model + desert::BinarySerializer + desert::BinaryDeserializer>(&mut self, id: &str) {
+        self.hostile_only.push(Box::new(S::<T>::new(id)));
+    }
+
+    pub fn add_tolerant<T: Model + desert::BinarySerializer + desert::BinaryDeserializer>(&mut self, writer: &str, id: &str) {
+        self.tolerant.push((writer.to_string(), Box::new(S::<T>::new(id))));
+    }
+
     pub fn get(&self, id: &str) -> Option<&dyn Subject> {
-        self.subjects.iter().find(|s| s.id() == id).map(|b| b.as_ref())
+        self.subjects
+            .iter()
+            .find(|s| s.id() == id)
+            .or_else(|| self.hostile_only.iter().find(|s| s.id() == id))
+            .or_else(|| self.tolerant.iter().map(|(_, s)| s).find(|s| s.id() == id))
+            .map(|b| b.as_ref())
     }
 }
 
